@@ -147,6 +147,11 @@ def ob_specobjid_array(n, low):
             ctx.require(z3.Not(inrange), 'specobjid: ValueError only for out-of-range fields (true MJD > 50000 in array calls)', d)
             return
         ctx.require(inrange, 'specobjid: out-of-range field must be rejected', d)
+        # the caller's arrays still hold the fields that were packed (a second call would otherwise disagree with the first)
+        for k in names:
+            for i in range(n):
+                e = arr[k][i]
+                ctx.require(isinstance(e, BV) and e.term == f[k][i].term, 'specobjid: the array arguments are not modified', dict(d, field=k, i=i))
         for i in range(n):
             o = out[i]
             ctx.require(isinstance(o, BV) and o.dtype == np.dtype('u8'), 'specobjid: uint64 result', d)
@@ -360,7 +365,10 @@ def replay(rec):
                 out = sdss_specobjid(vals['plate'][0], vals['fiber'][0], vals['mjd'][0], vals['run2d'][0], **kw)
             else:
                 kw = {low: np.array(vals[low], dtype='i8')} if low else {}
-                out = sdss_specobjid(*[np.array(vals[k], dtype='i8') for k in names[:4]], **kw)
+                args = [np.array(vals[k], dtype='i8') for k in names[:4]]
+                out = sdss_specobjid(*args, **kw)
+                if inrange and any(a.tolist() != vals[k] for a, k in zip(args, names[:4])):
+                    return True          # the caller's arrays were modified
         except ValueError:
             return inrange
         except Exception:
